@@ -229,6 +229,10 @@ impl<T> Pool<T> {
     /// See [`PoolError`] for details.
     pub async fn timeout_get(&self, timeout: Option<Duration>) -> Result<Object<T>, PoolError> {
         let inner = self.inner.as_ref();
+        // This call counts as waiting (a negative `available`) until it
+        // either got an object or gave up.
+        let _ = inner.available.fetch_sub(1, Ordering::Relaxed);
+        let waiting = Waiting(&inner.available);
         #[cfg(deadpool_verif)]
         crate::verif::point("uget.acquire");
         let permit = match (timeout, inner.config.runtime) {
@@ -261,7 +265,7 @@ impl<T> Pool<T> {
         // `close()` may have emptied the queue after the permit was obtained.
         let obj = obj.ok_or(PoolError::Closed)?;
         permit.forget();
-        let _ = inner.available.fetch_sub(1, Ordering::Relaxed);
+        std::mem::forget(waiting);
         Ok(Object {
             pool: Arc::downgrade(&self.inner),
             obj: Some(obj),
@@ -420,6 +424,16 @@ impl<T> Pool<T> {
             Err(e) => e.into_inner(),
         };
         queue.iter().for_each(&mut f);
+    }
+}
+
+/// Gives back the slot in `available` which a waiting `get` has reserved if
+/// that `get` fails or is dropped.
+struct Waiting<'a>(&'a AtomicIsize);
+
+impl Drop for Waiting<'_> {
+    fn drop(&mut self) {
+        let _ = self.0.fetch_add(1, Ordering::Relaxed);
     }
 }
 
